@@ -335,6 +335,10 @@ pub struct OptSet {
     pub no_ff: bool,
     /// a `commit-map` lying in the debug directory from an earlier run (stream-level runs only): turns on the old-id translator
     pub prior_map: Option<Vec<u8>>,
+    /// the regex engine is a parameter of the model: what the `regex:`/`glob:` rules of the message / blob rule file do to
+    /// the inputs this case presents (messages / payloads after the literal rules), tabulated with the real engine
+    pub rx_msg: Option<Vec<(Vec<u8>, Vec<u8>)>>,
+    pub rx_blob: Option<Vec<(Vec<u8>, Vec<u8>)>>,
 }
 
 impl OptSet {
@@ -423,6 +427,14 @@ impl OptSet {
                 f.extend_from_slice(*rng.pick(&[&b"hunter2"[..], b"secret", b"ab", b"aa", b"message", b"a", b"\n", b"deadbeef1234", b"# c", b"line", b"x"]));
                 if rng.chance(2, 3) { f.extend_from_slice(b"==>"); f.extend_from_slice(*rng.pick(&[&b""[..], b"***", b"b", b"aab", b"hunter2!", b"X==>Y"])); }
                 f.push(b'\n');
+            }
+            // pattern rules (applied after all literal rules, in file order): some match what a literal rule above produces
+            if rng.chance(1, 3) {
+                for _ in 0..1 + rng.below(2) {
+                    f.extend_from_slice(*rng.pick(&[&b"regex:[0-9]+==>N"[..], b"regex:(?i)secret==>[$0]", b"regex:\\*\\*\\*==>stars", b"regex:b(a*)b==>[$1]", b"glob:hunt*2==>G", b"regex:^fix ==>FIX: ",
+                        b"regex:hunter2!==>bang", b"glob:a?b==>Q", b"regex:X==>hunter2", b"regex:me(ss)age==>$1", b"regex:\\bline\\b"]));
+                    f.push(b'\n');
+                }
             }
             f
         };
